@@ -37,7 +37,7 @@ def c01(ctx, t0):
         res.append(ovl_stage(ctx, 'agent-history', 'TestVerifC01Agent', T(ctx, 300, 2400)))
     if want(ctx, 'concurrent-writers'):
         res.append(ctx.run_child('concurrent-writers', [hx, 'c01conc'], T(ctx, 300, 1800)))
-    floors = {'conc_overlapping_update_pairs': (counters(res, 'conc_overlapping_update_pairs'), 50), 'obstructed_ops': (counters(res, 'obstructed_ops'), 50), 'auth_probes': (counters(res, 'auth_probes'), 100), 'nearmiss_probes': (counters(res, 'nearmiss_probes'), 100),
+    floors = {'restamped_records': (counters(res, 'restamped_records'), 20), 'symlinked_records': (counters(res, 'symlinked_records'), 10), 'conc_overlapping_update_pairs': (counters(res, 'conc_overlapping_update_pairs'), 50), 'obstructed_ops': (counters(res, 'obstructed_ops'), 50), 'auth_probes': (counters(res, 'auth_probes'), 100), 'nearmiss_probes': (counters(res, 'nearmiss_probes'), 100),
               'equivalent_key_probes': (counters(res, 'equivalent_key_probes'), 1), 'agent_auth_probes': (counters(res, 'agent_auth_probes'), 1000)}
     return finish(ctx, 'exploration', res, COMMON_ASSUME + [
         'reference model refstore/refschema (written from doc/SCHEMA.md) is the oracle; key equivalence of PBKDF2-HMAC is modelled by ref.Canon',
